@@ -13,7 +13,7 @@ def cells(tier, tag):
     out = []
     dims = DIMS_Q if tier == "quick" else DIMS_T
     lays = LAYOUTS if tier == "quick" else LAYOUTS_T
-    reps = 2 if tier == "quick" else 6
+    reps = 2 if tier == "quick" else 10
     for ck in build.COND_KINDS:
         for (Dx, Dy) in dims:
             if ck.startswith("identity") and Dx != Dy:
